@@ -20,8 +20,18 @@ def goenv():
     return e
 
 
-def sh(cmd, cwd=None, env=None, timeout=None, stdin=None):
-    p = subprocess.run(cmd, cwd=cwd, env=env, stdout=subprocess.PIPE, stderr=subprocess.STDOUT, timeout=timeout, stdin=stdin, text=True, errors="replace")
+def _limit_mem():
+    import resource
+    lim = 20 * 1024 ** 3
+    resource.setrlimit(resource.RLIMIT_AS, (lim, lim))
+
+
+def sh(cmd, cwd=None, env=None, timeout=None, stdin=None, limit=False):
+    try:
+        p = subprocess.run(cmd, cwd=cwd, env=env, stdout=subprocess.PIPE, stderr=subprocess.STDOUT, timeout=timeout, stdin=stdin, text=True,
+                           errors="replace", preexec_fn=_limit_mem if limit else None)
+    except subprocess.TimeoutExpired as e:
+        return 124, "TIMEOUT after %ss\n%s" % (timeout, (e.stdout or "")[-3000:] if isinstance(e.stdout, str) else "")
     return p.returncode, p.stdout
 
 
@@ -229,7 +239,7 @@ def main(argv):
             inp = os.path.join(outdir, "replay-input.json")
             json.dump(body.get("violation", body), open(inp, "w"))
             cmd += ["-replay", inp]
-        rc, out = sh(cmd, env=dict(goenv(), GOMAXPROCS="16", PINT_BIN=pint_bin or ""), timeout=cfg.get("timeout", {}).get(tier, 3000))
+        rc, out = sh(cmd, env=dict(goenv(), GOMAXPROCS="16", PINT_BIN=pint_bin or ""), timeout=cfg.get("timeout", {}).get(tier, 3000), limit=True)
         if rc != 0:
             notes.append("harness exited %d: %s" % (rc, out[-3000:]))
             path = write_replay(prop, seed, 0, {"property": prop, "kind": "harness-crash", "log": out[-6000:]})
@@ -285,7 +295,7 @@ def main(argv):
             rp = os.path.join(VERIF, f["replay"])
             od = tempfile.mkdtemp(prefix="known-", dir=BUILD)
             try:
-                rc, out = sh([exe, prop, "-seed", "0", "-n", "1", "-out", od, "-replay", rp], env=dict(goenv(), PINT_BIN=pint_bin or ""), timeout=600)
+                rc, out = sh([exe, prop, "-seed", "0", "-n", "1", "-out", od, "-replay", rp], env=dict(goenv(), PINT_BIN=pint_bin or ""), timeout=600, limit=True)
                 still = False
                 if rc == 0:
                     s2 = json.load(open(os.path.join(od, "summary.json")))
